@@ -115,3 +115,75 @@ Proof.
     rewrite <- (map_id (fields (Helpers.bitlen b) v)) at 2. apply map_ext. intros d. reflexivity.
   - rewrite (Hrej Hex) in Hu. discriminate.
 Qed.
+
+(* ---------- packing: Spec.SimpleBitPack / BitPack in arithmetic terms ---------- *)
+Transparent fields.
+Lemma bti_flat_map c (w : list Z) : digits_ok (Z.of_nat c) w ->
+  BitsToInteger (flat_map (fun wi => IntegerToBits wi c) w) = dval (Z.of_nat c) w
+  /\ length (flat_map (fun wi => IntegerToBits wi c) w) = (c * length w)%nat.
+Proof.
+  intros H. induction H as [|x w Hx H [IH1 IH2]]; [split; [reflexivity|cbn; lia]|].
+  cbn [flat_map dval length]. rewrite bti_app, app_length, itb_length, IH1, IH2, bti_itb by lia.
+  rewrite Z.mod_small by exact Hx. split; lia.
+Qed.
+
+Lemma btb_n_spec : forall n y, (8 * n <= length y)%nat ->
+  le_int (BitsToBytes_n n y) = BitsToInteger y mod 256 ^ Z.of_nat n /\ length (BitsToBytes_n n y) = n /\ BitPackProofs.bytes_ok (BitsToBytes_n n y).
+Proof.
+  induction n as [|n IH]; intros y Hl.
+  - cbn. rewrite Z.pow_0_r, Z.mod_1_r. repeat split. constructor.
+  - cbn [BitsToBytes_n le_int length]. destruct (IH (skipn 8 y)) as (I1 & I2 & I3); [rewrite skipn_length; lia|].
+    rewrite I1, I2. rewrite bti_firstn, bti_skipn by lia. change (2 ^ Z.of_nat 8) with 256.
+    rewrite Nat2Z.inj_succ, Z.pow_succ_r by lia.
+    assert (Hp : 0 < 256 ^ Z.of_nat n) by (apply Z.pow_pos_nonneg; lia).
+    repeat split.
+    + rewrite Z.rem_mul_r by lia. reflexivity.
+    + constructor; [apply Z.mod_pos_bound; lia|exact I3].
+Qed.
+
+Lemma SimpleBitPack_value (w : list Z) b c : SpecConv.bitlen b = c -> digits_ok (Z.of_nat c) w -> (Nat.modulo (c * length w) 8 = 0)%nat ->
+  le_int (SimpleBitPack w b) = dval (Z.of_nat c) w /\ length (SimpleBitPack w b) = Nat.div (c * length w) 8
+  /\ BitPackProofs.bytes_ok (SimpleBitPack w b).
+Proof.
+  intros Hc Hw Hm. unfold SimpleBitPack, BitsToBytes. rewrite Hc.
+  destruct (bti_flat_map c w Hw) as [E1 E2]. set (bits := flat_map (fun wi => IntegerToBits wi c) w) in *.
+  rewrite E2. assert (Hdiv : (c * length w = 8 * Nat.div (c * length w) 8)%nat) by (pose proof (Nat.div_mod (c * length w) 8 ltac:(lia)); lia).
+  destruct (btb_n_spec (Nat.div (c * length w) 8) bits ltac:(lia)) as (B1 & B2 & B3).
+  rewrite B1, E1. repeat split; try assumption.
+  apply Z.mod_small. pose proof (dval_bound (Z.of_nat c) w ltac:(lia) Hw) as Hb.
+  replace (256 ^ Z.of_nat (Nat.div (c * length w) 8)) with (2 ^ (Z.of_nat c * Z.of_nat (length w))); [exact Hb|].
+  change 256 with (2 ^ 8). rewrite <- Z.pow_mul_r by lia. f_equal. lia.
+Qed.
+
+(* the crate's simple_bit_pack against the specification *)
+Theorem simple_bit_pack_is_Spec (w : list Z) b : 1 <= b < 1048576 -> length w = 256%nat -> is_in_range w 0 b = true ->
+  simple_bit_pack w b (32 * Helpers.bitlen b) = Ok (SimpleBitPack w b).
+Proof.
+  intros Hb Hl Hr. pose proof (proj1 (in_range_forall _ _ _) Hr) as HrF.
+  assert (Hab : valid_ab 0 b) by (unfold valid_ab; lia).
+  destruct (bit_pack_unpack 0 b w Hab Hl Hr) as (v & Ep & _ & Hbv & Hlv). replace (0 + b) with b in * by lia.
+  unfold simple_bit_pack. replace ((1 <=? b) && (b <? 1048576)) with true by (symmetry; apply andb_true_intro; split; [apply Z.leb_le|apply Z.ltb_lt]; lia).
+  rewrite Hr, Z.eqb_refl. cbn [guard bind]. rewrite Ep. f_equal.
+  (* both byte strings have the same little-endian value and length *)
+  destruct (bitlen_ab 0 b Hab) as [Hc Hlt]. replace (0 + b) with b in * by lia.
+  set (c := SpecConv.bitlen b).
+  assert (Hcz : Z.of_nat c = Helpers.bitlen b) by (apply bitlen_spec_nat; lia).
+  assert (Hw : digits_ok (Z.of_nat c) w).
+  { eapply Forall_impl; [|exact HrF]. cbn beta. intros x Hx. rewrite Hcz. lia. }
+  destruct (SimpleBitPack_value w b c eq_refl Hw) as (S1 & S2 & S3).
+  { rewrite Hl. replace (c * 256)%nat with (8 * (c * 32))%nat by lia. rewrite Nat.mul_comm. apply Nat.mod_mul. lia. }
+  apply le_int_inj; try assumption.
+  - rewrite S2, Hl. replace (c * 256)%nat with ((c * 32) * 8)%nat by lia. rewrite Nat.div_mul by lia. lia.
+  - rewrite S1.
+    (* value of the crate's output: from the round trip, unpacking v gives w, i.e. its digits are w *)
+    unfold bit_pack in Ep.
+    repeat (match type of Ep with context [guard ?g _] => destruct g; cbn [guard bind] in Ep; try discriminate end).
+    injection Ep as Ev.
+    assert (Hwe : Forall (fun x => 0 <= enc 0 b x < 2 ^ Helpers.bitlen b) w).
+    { eapply Forall_impl; [|exact HrF]. cbn beta. intros x Hx. unfold enc. cbn. lia. }
+    destruct (bit_pack_raw_value 0 b (Helpers.bitlen b) Hc w Hl Hwe) as (ob & Eo & _ & _ & Hvo).
+    replace (0 + b) with b in Ev by lia. rewrite (bit_pack_raw_eq w 0 b ob) in Ev by (replace (0 + b) with b by lia; exact Eo).
+    subst v. rewrite Hvo, Hcz. f_equal.
+    rewrite <- (map_id w) at 2. apply map_ext_in. intros x Hx. rewrite Forall_forall in HrF. specialize (HrF x Hx). unfold enc. cbn. lia.
+Qed.
+Opaque fields.
